@@ -509,6 +509,36 @@ def rule_first(ctx, rep):
         r.finding("parse_program|tokenizer-errors-ignored", loc_str(b.f, pl[0].loc), "parse_library is reachable although the tokenizer's diagnostics were not found empty")
 
 
+REVERSE_SEARCH = ("rfind", "rsplit", "rsplit_once", "rsplitn", "rmatches", "rmatch_indices", "rsplit_terminator", "last", "next_back", "rposition", "rev")
+
+
+def rule_firstend(ctx, rep, rid="R-C03-firstend"):
+    """The preprocessor blanks the text between a start marker and an end marker before the lexer sees it: whatever lies in between is never
+    diagnosed.  The region must end at the first end marker.  A search from the back (rfind, rsplit_once, ...) makes the region run to
+    the *last* marker of the file, so the declarations - and their errors - between two description blocks vanish."""
+    r = rep.rule(rid, "the text-blanking steps of the preprocessor locate their markers by forward search only (no rfind/rsplit/...: a region "
+                      "that ends at the last marker swallows everything between two blocks)", floor=2, floor_what="marker searches in the preprocessor")
+    n = 0
+    for b in sorted(ctx.prog.bodies.values(), key=lambda x: x.id):
+        if b.f["crate"] != "ironplc_parser" or "preprocessor" not in b.f["file"] or "::test" in norm(b.id):
+            continue
+        k = {}
+        for c in sorted(b.calls(), key=lambda c: (c.loc[0], c.loc[1])):
+            nm = c.callee or ""
+            m = nm.split("::")[-1]
+            if "core::str" not in nm and "str::traits" not in nm and "alloc::str" not in nm and "Iterator" not in (c.u or ""):
+                continue
+            if m in ("find", "split_once", "match_indices", "matches", "split", "splitn") and "str" in nm:
+                n += 1
+                i = k[m] = k.get(m, 0) + 1
+                r.ok("%s|%s#%d" % (norm(b.id).split("::")[-1], m, i), loc_str(b.f, c.loc), "forward search")
+            elif m in REVERSE_SEARCH and ("str" in nm or "Iterator" in (c.u or "")):
+                n += 1
+                i = k[m] = k.get(m, 0) + 1
+                r.finding("%s|%s#%d|reverse-search" % (norm(b.id).split("::")[-1], m, i), loc_str(b.f, c.loc), "%s() locates a marker from the end of the text: with two blocks in a file the blanked "
+                          "region runs from the first start marker to the last end marker and everything in between (declarations and their errors) disappears" % m)
+
+
 def run(ctx, rep):
     rep.not_decided += ["that every companion-independent semantic rule still fires in the presence of arbitrary other declarations (value-level)",
                         "'adding files may cure undeclared errors' monotonicity"]
@@ -530,6 +560,10 @@ def run(ctx, rep):
     # a changed document is checked as changed: its cached parse cannot outlive its text
     from rules.c11 import rule_cache
     rule_cache(ctx, rep, rid="R-C03-cache")
+    rule_firstend(ctx, rep)
+    # an error in a use that names its enumeration must not be cured by an unrelated enumeration
+    from rules.c02_enum import run_exact
+    run_exact(ctx, rep, rid="R-C03-enumexact")
     # a faulty file must not be replaced in the file table by a different file that merely compares equal
     from rules.c06 import rule_types
     rule_types(ctx, rep, rid="R-C03-fileid")
